@@ -1,6 +1,7 @@
 package main
 
 import (
+	"regexp"
 	"encoding/json"
 	"flag"
 	"fmt"
@@ -230,7 +231,9 @@ func cmdVC(args []string) {
 	bad := 0
 	for _, key := range pc.Order {
 		if *fn != "" && !strings.Contains(key, *fn) {
-			continue
+			if re, err := regexp.Compile(*fn); err != nil || !re.MatchString(key) {
+				continue
+			}
 		}
 		fc := pc.Funcs[key]
 		if fc.Trusted != "" {
@@ -543,6 +546,30 @@ func cmdCheck(args []string) int {
 			undecidedN++
 		}
 	}
+	// bounded stand-ins (never counted as discharged obligations)
+	var boundedCov []interface{}
+	for _, sp := range loadBounded(pid) {
+		br := runBounded(repoDir(), pid, tier, sp)
+		entry := map[string]interface{}{"name": sp.Name, "label": "bounded", "stands_in_for": sp.StandsInFor, "bound": sp.Bound[tier],
+			"cases": br.Cases, "stats": br.Stats, "status": br.Status, "seconds": round2(br.Seconds)}
+		boundedCov = append(boundedCov, entry)
+		switch br.Status {
+		case "ok":
+			fmt.Printf("bounded property=%s name=%s cases=%d status=ok (%.1fs) [bounded stand-in, not a proof]\n", pid, sp.Name, br.Cases, br.Seconds)
+		case "fail":
+			rp := writeBoundedReplay(replayDir, pid, br, tier)
+			for _, f := range br.Fails {
+				fmt.Printf("bounded-fail property=%s %s\n", pid, f)
+			}
+			fmt.Printf("VIOLATION property=%s replay=%s obligation=bounded:%s\n", pid, rp, sp.Name)
+			violations++
+			exit = 1
+		default:
+			fmt.Printf("UNDECIDED property=%s bounded=%s reason=%s\n", pid, sp.Name, br.Status)
+			undecidedList = append(undecidedList, "bounded:"+sp.Name+": "+br.Status+": "+truncate(br.Output, 300))
+			undecidedN++
+		}
+	}
 	// obligations in the baseline that no longer exist (function changed shape): undecided, not a violation
 	have := map[string]bool{}
 	for _, n := range allNames {
@@ -571,6 +598,7 @@ func cmdCheck(args []string) int {
 		"undecided":    undecidedList, "vacuity_checks": vacuity, "known_findings": knownHit,
 		"unclaimed":    unclaimedList, "baseline_missing": missing,
 		"samples":      samples,
+		"bounded_stand_ins": boundedCov,
 		"explanation":  "contract-based deductive verification: weakest-precondition style VCs generated from go/ssa of /repo's working tree, discharged by z3/cvc5; see DESIGN.md",
 		"evaluations": total, "distinct_nontrivial": discharged,
 	}
